@@ -120,6 +120,7 @@ static unsigned removeDots(const char *in, unsigned n, char *out)
 // each confirmed by a natively replayed counterexample; -DC20_SHOW=<bit mask> re-admits classes to show them again).
 enum { kRelativePath, kAuthoritySpelling, kEmptyPath, kSchemeCase, kFragment, kEncodedChar, kNetworkPath, kDotSegment, kClasses };
 static bool known[kClasses];
+static bool otherHost; // set by resolve(): the value's authority names a host other than the request's (nothing is required)
 #ifndef C20_SHOW
 #define C20_SHOW 0
 #endif
@@ -155,7 +156,16 @@ static bool resolve(const uint8_t *v, unsigned n, char *out)
     if (i < n) query = {s + i + 1, n - i - 1, true};
 
     known[kRelativePath] = !scheme.defined && n > 0 && s[0] != '/';
-    known[kAuthoritySpelling] = auth.defined && !(auth.n == 3 && auth.p[0] == 'h' && auth.p[1] == '.' && auth.p[2] == 'x');
+    otherHost = false;
+    if (auth.defined && !(auth.n == 3 && auth.p[0] == 'h' && auth.p[1] == '.' && auth.p[2] == 'x')) {
+        unsigned st = 0;                                   // host = after the last '@', up to the next ':'
+        for (unsigned k = 0; k < auth.n; ++k) if (auth.p[k] == '@') st = k + 1;
+        unsigned en = st;
+        while (en < auth.n && auth.p[en] != ':') ++en;
+        const bool same = en - st == 3 && (auth.p[st] | 0x20) == 'h' && auth.p[st + 1] == '.' && (auth.p[st + 2] | 0x20) == 'x';
+        known[kAuthoritySpelling] = same;                  // the request's host, spelled differently
+        otherHost = !same;
+    }
     known[kEmptyPath] = auth.defined && path.n == 0;
     for (unsigned k = 0; k < scheme.n; ++k) if (scheme.p[k] >= 'A' && scheme.p[k] <= 'Z') known[kSchemeCase] = true;
     if (scheme.defined) // the value is purged as written; the lookup key percent-encodes what AnyP::Uri's PathChars() lacks
@@ -272,9 +282,7 @@ static void named(const uint8_t *v, const unsigned n)
     vf_assert(wasPurged("http://h.x/p/q"), "non-error response to an unsafe method: the request URL is invalidated");
     char target[96];
     if (!resolve(v, n, target)) { vf_reach("not-a-url"); WITNESS_POINT(); return; }
-    AnyP::Uri later; // the later GET for that URL, as Squid parses and keys it
-    if (!later.parse(HttpRequestMethod(Http::METHOD_GET), SBuf(target))) { vf_reach("unparsable"); WITNESS_POINT(); return; }
-    if (strcasecmp(later.host(), "h.x") != 0) { vf_reach("other-host"); WITNESS_POINT(); return; }
+    if (otherHost) { vf_reach("other-host"); WITNESS_POINT(); return; }
     // KNOWN-FINDING candidates (request POST http://h.x/p/q, status 200; the value below in Location or Content-Location):
     // kRelativePath: a relative reference not starting with '/' ("b", "./b", "?x") is not invalidated. purgeEntriesByHeader()
     //   copies req->url *with its cached absolute_ form* (filled by effectiveRequestUri() just before) and
@@ -294,6 +302,9 @@ static void named(const uint8_t *v, const unsigned n)
     KNOWN_CLASS(kRelativePath, "known-relative-path") KNOWN_CLASS(kAuthoritySpelling, "known-authority-spelling")
     KNOWN_CLASS(kEmptyPath, "known-empty-path") KNOWN_CLASS(kSchemeCase, "known-scheme-case") KNOWN_CLASS(kFragment, "known-fragment")
     KNOWN_CLASS(kEncodedChar, "known-encoded-char") KNOWN_CLASS(kNetworkPath, "known-network-path") KNOWN_CLASS(kDotSegment, "known-dot-segment")
+    AnyP::Uri later; // the later GET for that URL, as Squid parses and keys it
+    if (!later.parse(HttpRequestMethod(Http::METHOD_GET), SBuf(target))) { vf_reach("unparsable"); WITNESS_POINT(); return; }
+    vf_assert(strcasecmp(later.host(), "h.x") == 0, "harness: the reference and AnyP::Uri::parse agree that the URL names the request's host");
     SBuf key = later.absolute();
     vf_observe("key", sbufHash(key));
     vf_assert(wasPurged(key.c_str()), "same-host URL named by Location/Content-Location is invalidated under the key a later GET uses");
